@@ -79,11 +79,32 @@ func main() {
 	sb.WriteString("From Coq Require Import List String.\nImport ListNotations.\nOpen Scope string_scope.\n\n")
 	sb.WriteString("(* function, callees inside the package, writes *)\n")
 	sb.WriteString("Definition impl_effects : list (string * list string * list string) :=\n  [")
+	callsites := map[string]map[string]int{} // function -> package function called directly -> number of call sites
+	funcrefs := map[string]bool{}           // package functions used as values (stored in tables, passed around)
+	envcalls := map[string]map[string]int{} // function -> environment-reading callee -> number of call sites
 	for i, f := range funcs {
 		callees := map[string]bool{}
 		writes := map[string]bool{}
 		for _, b := range f.Blocks {
 			for _, ins := range b.Instrs {
+				var staticCallee ssa.Value
+				if ci, ok := ins.(ssa.CallInstruction); ok && ci.Common().StaticCallee() != nil {
+					staticCallee = ci.Common().Value
+					if g := ci.Common().StaticCallee(); g.Pkg != nil && g.Pkg != target && envReader(g) {
+						if envcalls[fname(f)] == nil {
+							envcalls[fname(f)] = map[string]int{}
+						}
+						envcalls[fname(f)][g.String()]++
+					}
+				}
+				for _, op := range ins.Operands(nil) {
+					if op == nil || *op == nil || *op == staticCallee {
+						continue
+					}
+					if g, ok := (*op).(*ssa.Function); ok && seen[g] {
+						funcrefs[fname(g)] = true
+					}
+				}
 				switch x := ins.(type) {
 				case *ssa.Store:
 					writes[root(x.Addr, 0)] = true
@@ -104,10 +125,28 @@ func main() {
 					if g := c.StaticCallee(); g != nil {
 						if seen[g] || (g.Pkg == target) {
 							callees[fname(g)] = true
+							if callsites[fname(f)] == nil {
+								callsites[fname(f)] = map[string]int{}
+							}
+							callsites[fname(f)][fname(g)]++
 						} else if g.Signature.Recv() != nil && len(c.Args) > 0 {
 							r := root(c.Args[0], 0)
-							if strings.HasPrefix(r, "global:") || strings.HasPrefix(r, "param:") {
+							isDec := g.Pkg != nil && strings.HasSuffix(g.Pkg.Pkg.Path(), "ericlagergren/decimal")
+							if strings.HasPrefix(r, "global:") || strings.HasPrefix(r, "param:") || (isDec && sharedRoot(r)) {
 								writes["extcall:"+r+":"+g.String()] = true
+							}
+							if !isDec {
+								continue
+							}
+							// reference-typed arguments (other than the receiver) handed to a method of another package
+							for ai := 1; ai < len(c.Args); ai++ {
+								if _, ok := c.Args[ai].Type().Underlying().(*types.Pointer); !ok {
+									continue
+								}
+								ra := root(c.Args[ai], 0)
+								if sharedRoot(ra) {
+									writes[fmt.Sprintf("extarg:%s:%s#%d", ra, g.String(), ai)] = true
+								}
 							}
 						}
 						for _, a := range c.Args {
@@ -140,11 +179,90 @@ func main() {
 		}
 		fmt.Fprintf(&sb, "(%q, %s, %s)", fname(f), coqList(callees), coqList(writes))
 	}
+	sb.WriteString("].\n\n")
+	sb.WriteString("(* package functions whose value is taken (table entries, callbacks): reachable through reflection *)\n")
+	sb.WriteString("Definition impl_funcrefs : list string :=\n  " + coqList(funcrefs) + ".\n\n")
+	sb.WriteString("(* direct calls of package functions, with the number of call sites *)\n")
+	sb.WriteString("Definition impl_callsites : list (string * list (string * nat)) :=\n  [")
+	{
+		var ks []string
+		for k := range callsites {
+			ks = append(ks, k)
+		}
+		sort.Strings(ks)
+		for i, k := range ks {
+			if i > 0 {
+				sb.WriteString(";\n   ")
+			}
+			var cs []string
+			for c := range callsites[k] {
+				cs = append(cs, c)
+			}
+			sort.Strings(cs)
+			var parts []string
+			for _, c := range cs {
+				parts = append(parts, fmt.Sprintf("(%q, %d)", c, callsites[k][c]))
+			}
+			fmt.Fprintf(&sb, "(%q, [%s])", k, strings.Join(parts, "; "))
+		}
+	}
+	sb.WriteString("].\n\n")
+	sb.WriteString("(* call sites of functions that read the environment (clock, random source, process, files) *)\n")
+	sb.WriteString("Definition impl_envcalls : list (string * list (string * nat)) :=\n  [")
+	var efs []string
+	for k := range envcalls {
+		efs = append(efs, k)
+	}
+	sort.Strings(efs)
+	for i, k := range efs {
+		if i > 0 {
+			sb.WriteString(";\n   ")
+		}
+		var cs []string
+		for c := range envcalls[k] {
+			cs = append(cs, c)
+		}
+		sort.Strings(cs)
+		var parts []string
+		for _, c := range cs {
+			parts = append(parts, fmt.Sprintf("(%q, %d)", c, envcalls[k][c]))
+		}
+		fmt.Fprintf(&sb, "(%q, [%s])", k, strings.Join(parts, "; "))
+	}
 	sb.WriteString("].\n")
 	if err := os.WriteFile(out, []byte(sb.String()), 0o644); err != nil {
 		fmt.Fprintln(os.Stderr, err)
 		os.Exit(1)
 	}
+}
+
+// sharedRoot: the value may be visible outside the current call (anything but memory allocated by this function
+// or returned by an allocator)
+func sharedRoot(r string) bool {
+	for _, part := range strings.Split(r, "|") {
+		switch {
+		case strings.HasPrefix(part, "global:"), strings.HasPrefix(part, "param:"), strings.HasPrefix(part, "load:"), strings.HasPrefix(part, "freevar:"):
+			return true
+		case strings.HasPrefix(part, "result:"):
+			if part != "result:newDecimalBig" && !strings.HasSuffix(part, "decimal.WithContext") && !strings.HasSuffix(part, "decimal.New") {
+				return true
+			}
+		}
+	}
+	return false
+}
+
+// envReader: functions of other packages whose result depends on the environment rather than on their arguments
+func envReader(g *ssa.Function) bool {
+	p := g.Pkg.Pkg.Path()
+	n := g.Name()
+	switch p {
+	case "time":
+		return g.Signature.Recv() == nil && (n == "Now" || n == "Since" || n == "Until" || n == "After" || n == "Tick" || n == "Sleep" || n == "NewTimer" || n == "NewTicker")
+	case "math/rand", "math/rand/v2", "crypto/rand", "os", "os/exec", "os/user", "net", "net/http", "runtime", "syscall", "io/ioutil":
+		return n != "init"
+	}
+	return false
 }
 
 func fname(f *ssa.Function) string {
@@ -227,6 +345,21 @@ func root(v ssa.Value, depth int) string {
 		sort.Strings(parts)
 		return strings.Join(parts, "|")
 	case *ssa.Call:
+		if g := x.Common().StaticCallee(); g != nil && g.Pkg != nil && strings.HasSuffix(g.Pkg.Pkg.Path(), "ericlagergren/decimal") &&
+			g.Signature.Recv() != nil && len(x.Common().Args) > 0 && g.Signature.Results().Len() >= 1 {
+			// the decimal package's methods hand back the number they store into: (*Big) methods their receiver,
+			// Context methods their first argument
+			rt := tname(g.Signature.Results().At(0).Type())
+			if strings.HasSuffix(rt, "Big") {
+				if strings.Contains(tname(g.Signature.Recv().Type()), "Context") {
+					if len(x.Common().Args) > 1 {
+						return root(x.Common().Args[1], depth+1)
+					}
+				} else {
+					return root(x.Common().Args[0], depth+1)
+				}
+			}
+		}
 		if g := x.Common().StaticCallee(); g != nil {
 			return "result:" + strings.ReplaceAll(g.String(), pkgPath+".", "")
 		}
@@ -236,6 +369,12 @@ func root(v ssa.Value, depth int) string {
 	case *ssa.ChangeInterface:
 		return root(x.X, depth+1)
 	case *ssa.Convert:
+		// []byte(s) and []rune(s) allocate
+		if _, isSlice := x.Type().Underlying().(*types.Slice); isSlice {
+			if b, ok := x.X.Type().Underlying().(*types.Basic); ok && b.Info()&types.IsString != 0 {
+				return "fresh"
+			}
+		}
 		return root(x.X, depth+1)
 	case *ssa.TypeAssert:
 		return root(x.X, depth+1)
